@@ -5,7 +5,7 @@ from oracle_util import *  # noqa
 from protocol import from_real
 
 ID = "C08"
-LEAN_MODULE = ["SCoda.Props.C08", "SCoda.Props.Purity", "SCoda.Props.C16b"]
+LEAN_MODULE = ["SCoda.Props.C08", "SCoda.Props.Purity", "SCoda.Props.C16b", "SCoda.Props.Strong589", "SCoda.Props.WrapTie"]
 CLAUSES = [
     ("at most one piece more than capacities; no piece is empty; the loop always terminates", ["SCoda.C08.count", "SCoda.C08.nonempty", "SCoda.C08.split_total"]),
     ("every piece except the last lasts exactly its capacity", ["SCoda.C08.exact"]),
@@ -14,6 +14,13 @@ CLAUSES = [
      ["SCoda.C08.closed_partial", "SCoda.C08.closed_statement_false"]),
     ("pieces laid end to end reproduce the sounding set exactly (same partial hypothesis)", ["SCoda.C08.sound_partial", "SCoda.C08.sound_statement_false"]),
     ("cut notes are re-struck with the same velocity", ["SCoda.C08.velocity"]),
+    ("EXACT D18 class and NOTES (audit A13): `closed` and `sound` proved under the input-level, decidable hypothesis that no zero-length note sits on a cumulative capacity "
+     "boundary (zero-length notes elsewhere are fine); the notes of the pieces laid end to end are a permutation of the source's notes cut at the boundaries (independent "
+     "`cutNotes`: a note with on < b < off becomes [on,b) and [b,off) with the same channel, pitch and velocity), per key an ordered equality; every note-on of a piece carries "
+     "channel, pitch and velocity of the source note sounding at that tick (the one being cut, not merely some earlier note of the key)",
+     ["SCoda.Strong589.closed_boundary", "SCoda.Strong589.sound_boundary", "SCoda.Strong589.notes_cut", "SCoda.Strong589.notes_cut_key", "SCoda.Strong589.velocity_strong", "SCoda.Strong589.split_notesB"]),
+    ("TIE BY TRANSLATION: Sequence.split (read the relative view, split it, wrap every piece in a new Sequence around a copy) as re-translated from the source equals the "
+     "wrapper model; RelativeSequence.split itself stays tied by correspondence", ["SCoda.WrapTie.split_eq"]),
     ("every non-note event at its original tick (partial: outside the final-boundary class — known finding D8; in general a sublist)",
      ["SCoda.C08.others_partial", "SCoda.C08.others_sublist", "SCoda.C08.split_drops_final_boundary_event"]),
     ("the source sequence is not changed: no write site of RelativeSequence.split / Sequence.split acts on an object that existed before the call "
